@@ -100,6 +100,9 @@ def gen_inner(rng, tag, cfg):
         # a background command cannot be captured: a diagnostic, an empty replacement, and the program is not started
         # (modelled as a stage that runs inside the shell: no fork, no pipes)
         return [{"kind": "builtin", "text": "pup %sbg &" % tag}], "empty"
+    if rng.chance(40):
+        # a function whose body leaves a loop through `break` inside an `if`, after printing
+        return [{"kind": "func", "text": "myloop"}], "func2"
     return [{"kind": "func", "text": "myfn"}], "func"
 
 
@@ -123,6 +126,8 @@ def gen_scenario(rng, cfg):
         for si in range(nsub):
             icfg = dict(cfg, inner_newlines=False) if form == "assign" else cfg
             inner, kind = gen_inner(rng, "%ss%d" % (tag, si), icfg)
+            if kind == "func2" and (nsub > 1 or cfg.get("faults")):
+                inner, kind = [{"kind": "func", "text": "myfn"}], "func"
             if cfg.get("big") and kind != "text":
                 inner, kind = [pup("%ss%di" % (tag, si), gen_talker(rng, "%ss%d" % (tag, si), cfg))], "text"
             inner_text = " | ".join(plines.render_stage(s) for s in inner)
@@ -130,7 +135,15 @@ def gen_scenario(rng, cfg):
             pre = gen_text(rng, {"special_pct": 0, "inner_newlines": False}, rng.choice([1, 2, 4])).replace(" ", "x") or "p"
             post = gen_text(rng, {"special_pct": 0, "inner_newlines": False}, rng.choice([0, 1, 3])).replace(" ", "y")
             subs.append({"inner": inner, "kind": kind, "pre": pre, "post": post, "text": sub})
-            if kind != "func":
+            if kind == "func2":
+                # the commands the body runs, in order: the condition, the printing command inside the `if`, (break),
+                # the command after the loop -- each captured on its own; the pieces are joined by single blanks
+                groups.append({"stages": [pup("fl_t", {"t": "talker", "writes": [], "code": 0})], "capture": True, "func": True})
+                groups.append({"stages": [pup("fl_o", {"t": "talker", "writes": [{"fd": 1, "hex": b"found\n".hex()}], "code": 0})],
+                               "capture": True, "func": True})
+                groups.append({"stages": [pup("fl_e", {"t": "talker", "writes": [{"fd": 1, "hex": b"end\n".hex()}], "code": 0})],
+                               "capture": True, "func": True})
+            elif kind != "func":
                 groups.append({"stages": inner, "capture": True})
             else:
                 groups.append({"stages": [pup("fn_inner", {"t": "talker", "writes": [
@@ -149,7 +162,7 @@ def gen_scenario(rng, cfg):
             for s in subs:
                 words.append(s["pre"] + s["text"] + s["post"])
         line = {"probe": False, "subs": subs, "form": form, "same_word": same_word or form != "argv",
-                "dones": 1 + sum(1 for x in subs if x["kind"] == "func")}
+                "dones": 1 + sum(1 for x in subs if x["kind"] == "func") + sum(3 for x in subs if x["kind"] == "func2")}
         lead, trail = [], []
         if form == "argv" and rng.chance(40):
             lead = [rng.choice(["'s q'", "plain", '"d q"', "'x'"])]
@@ -245,6 +258,8 @@ class C11Runner(LineRunner):
 
     def script_text(self):
         head = "function myfn() {\n    pup fn_inner\n}\n"
+        head += ("function myloop() {\n    for x in a b\n        if pup fl_t\n            pup fl_o\n            break\n"
+                 "        fi\n        pup fl_n\n    done\n    pup fl_e\n}\n")
         return head + "".join(plines.render_line(l) + "\n" for l in self.sc["lines"])
 
     def pipe_fault(self, k):
@@ -273,6 +288,9 @@ class C11Runner(LineRunner):
         sub = line["subs"][k]
         if sub["kind"] == "opaque":
             return None
+        if sub["kind"] == "func2":
+            self.sim.probe("function_with_break_inside_if_captured")
+            return b"found end"
         if G.pipe_failed:
             return None
         if G.forks_failed:
